@@ -202,6 +202,42 @@ def build_ops(name):
     def op_inspect():
         return (len(spec.paths()), len(spec.accessors()), spec.num_leaves, len(spec.children()))
 
+    # self-referential treespecs: metadata whose repr prints the treespec that holds it, a dict key whose hash is
+    # the hash of the treespec that holds it (the engine cuts the recursion per (treespec, thread))
+    class SelfMeta:
+        spec = None
+
+        def __repr__(self):
+            S.point('meta_repr')
+            return f'SelfMeta<{self.spec!r}>'
+
+    class SelfKey:
+        spec = None
+
+        def __hash__(self):
+            S.point('key_hash')
+            return 7 + (hash(self.spec) % 1000 if self.spec is not None else 0)
+
+        def __eq__(self, other):
+            return self is other
+
+        def __lt__(self, other):
+            return id(self) < id(other)
+
+        def __repr__(self):
+            return 'SelfKey'
+
+    smeta, skey = SelfMeta(), SelfKey()
+    self_spec = optree.tree_structure([FN([L[0]], smeta), {skey: L[1], 'k': L[2]}], namespace=NS)
+    smeta.spec = self_spec
+    skey.spec = self_spec
+
+    def op_selfrepr():
+        return repr(self_spec)
+
+    def op_selfhash():
+        return hash(self_spec)
+
     def op_broadcast():
         a, b = optree.tree_broadcast_common(tree, tree, namespace=NS)
         return len(optree.tree_leaves(a, namespace=NS))
@@ -410,6 +446,9 @@ def build_ops(name):
         'flatten|map|reg_plain': {'A': op_flatten, 'B': op_map, 'C': op_reg_plain},
         'iter|unflatten|reg_nt': {'A': op_iter, 'B': op_unflatten, 'C': op_reg_nt},
         'eq|hash|repr': {'A': op_eq, 'B': op_hash, 'C': op_repr},
+        'selfrepr|selfrepr': {'A': op_selfrepr, 'B': op_selfrepr},
+        'selfhash|selfhash': {'A': op_selfhash, 'B': op_selfhash},
+        'selfrepr|selfhash|selfrepr': {'A': op_selfrepr, 'B': op_selfhash, 'C': op_selfrepr},
     }
     ops = table[name]
 
@@ -432,7 +471,7 @@ def _solo(f):
 TUPLES = ['flatten|map', 'flatten|reg_nt', 'map|reg_nt', 'flatten2|reg_nt', 'inspect|reg_nt', 'unflatten|reg_meta',
           'flatten2|reg_meta', 'reg_nt|reg_nt', 'reg_nt|reg_meta', 'eq|hash', 'eq|eq', 'hash|hash', 'repr|repr', 'repr|pickle',
           'hash|repr', 'iter|with_path', 'unflatten|flatten', 'broadcast|inspect', 'flatten|map|reg_plain', 'iter|unflatten|reg_nt',
-          'eq|hash|repr', 'shared_iter', 'same_registration', 'registry_change_of_flattened_type',
+          'eq|hash|repr', 'selfrepr|selfrepr', 'selfhash|selfhash', 'selfrepr|selfhash|selfrepr', 'shared_iter', 'same_registration', 'registry_change_of_flattened_type',
           'register|unregister_same_type']
 
 
